@@ -213,17 +213,22 @@ theorem dstep_eq (q : Option Cls) (hq : q ≠ some .ws) (k : Cls) :
       if k = .ws then some ⟨teOf q, q⟩ else if ok q k then some ⟨teOf (some k), some k⟩ else none := by
   cases k <;> rcases q with _ | (_|_|_|_|_) <;> first | rfl | exact absurd rfl hq
 
-theorem dscan_eq : ∀ (s : Str) (q : Option Cls), q ≠ some .ws →
-    dscan ⟨teOf q, q⟩ s = (run q s).map (fun q' => ⟨teOf q', q'⟩)
-  | [], q, _ => by simp [dscan, run]
-  | c :: cs, q, hq => by
-    rw [dscan, run, dstep_eq q hq]
+theorem dscan_eq (s : Str) : ∀ (q : Option Cls), q ≠ some .ws →
+    dscan ⟨teOf q, q⟩ s = (run q s).map (fun q' => ⟨teOf q', q'⟩) := by
+  induction s with
+  | nil => intro q _; rfl
+  | cons c cs ih =>
+    intro q hq
+    show (match dstep ⟨teOf q, q⟩ (clsOf c) with
+      | none => none
+      | some st' => dscan st' cs) = _
+    rw [dstep_eq q hq]
     by_cases h : clsOf c = .ws
-    · simp only [h, if_true]; exact dscan_eq cs q hq
+    · simp only [h, if_true, run]; exact ih q hq
     · by_cases ho : ok q (clsOf c) = true
-      · simp only [h, ho, if_true, if_false]
-        exact dscan_eq cs (some (clsOf c)) (by simpa using h)
-      · simp [h, ho]
+      · simp only [h, ho, if_true, if_false, run]
+        exact ih (some (clsOf c)) (by simpa using h)
+      · simp [h, ho, run]
 
 theorem delimOk_eq_chain (s : Str) : delimOk s = chain none s := by
   have h := dscan_eq s none (by simp)
@@ -261,14 +266,8 @@ theorem chain_append_intro {xs ys : Str} {q q' : Option Cls} (h1 : run q xs = so
 /-! character classes of the pattern's character sets -/
 
 theorem clsOf_ws_iff (c : Char) : clsOf c = .ws ↔ isSpace c = true := by
-  unfold clsOf
-  by_cases h : isSpace c = true
-  · simp [h]
-  · simp only [h, if_false]
-    constructor
-    · intro h2; split at h2 <;> try split at h2 <;> try split at h2
-      all_goals simp at h2
-    · intro h2; exact absurd h2 (by simp)
+  by_cases h : isSpace c = true <;> by_cases h1 : (c == ',') = true <;> by_cases h2 : (c == '(') = true <;>
+    by_cases h3 : (c == ')') = true <;> simp [clsOf, h, h1, h2, h3]
 
 theorem clsOf_comma : clsOf ',' = .comma := by decide
 theorem clsOf_opn : clsOf '(' = .opn := by decide
@@ -291,12 +290,18 @@ theorem isP2_cls (c : Char) (h : isP2 c = true) : clsOf c = .ws ∨ c = ')' := b
 
 theorem notC_cls (c : Char) (h : isC c = false) : clsOf c ≠ .ws ∧ clsOf c ≠ .comma := by
   simp only [isC, Bool.or_eq_false_iff] at h
-  refine ⟨fun h2 => by simp [(clsOf_ws_iff c).mp h2] at h, ?_⟩
-  unfold clsOf
-  simp only [h.1, h.2]
-  intro h2
-  split at h2 <;> try split at h2
-  all_goals simp at h2
+  by_cases h2 : (c == '(') = true <;> by_cases h3 : (c == ')') = true <;> simp [clsOf, h.1, h.2, h2, h3]
+
+theorem mem_takeWhile_p (p : Char → Bool) : ∀ (l : Str) (x : Char), x ∈ l.takeWhile p → p x = true
+  | [], _, h => by simp at h
+  | c :: cs, x, h => by
+    rw [List.takeWhile_cons] at h
+    split at h
+    · rename_i hc
+      rcases List.mem_cons.mp h with e | e
+      · subst e; exact hc
+      · exact mem_takeWhile_p p cs x e
+    · simp at h
 
 theorem run_ws : ∀ (xs : Str) (q : Option Cls), (∀ c ∈ xs, clsOf c = .ws) → run q xs = some q
   | [], _, _ => rfl
@@ -530,20 +535,246 @@ theorem groups_spec (pre post : Str) :
   simp only [groups]
   refine ⟨?_, ?_, ?_, ?_, ?_, ?_, ?_, ?_⟩
   · rw [List.takeWhile_append_dropWhile, ← List.reverse_append, ← List.reverse_append,
-      ← List.append_assoc, List.takeWhile_append_dropWhile] 
-    sorry
+      List.append_assoc, List.takeWhile_append_dropWhile, List.takeWhile_append_dropWhile,
+      List.reverse_reverse]
   · simp [List.takeWhile_append_dropWhile]
-  · intro c hc; exact List.mem_takeWhile_imp hc
+  · intro c hc; exact mem_takeWhile_p _ _ _ hc
   · intro c hc
-    rw [List.dropWhile_append_of_pos (by intro a ha; exact List.mem_takeWhile_imp (List.mem_reverse.mp ha))] at hc
+    rw [List.dropWhile_append_of_pos (by intro a ha; exact mem_takeWhile_p _ _ _ (List.mem_reverse.mp ha))] at hc
     have := (List.dropWhile_sublist _).subset hc
-    exact List.mem_takeWhile_imp (List.mem_reverse.mp this)
-  · intro c hc; exact List.mem_takeWhile_imp hc
-  · intro c hc; exact List.mem_takeWhile_imp hc
+    exact mem_takeWhile_p _ _ _ (List.mem_reverse.mp this)
+  · intro c hc; exact mem_takeWhile_p _ _ _ hc
+  · intro c hc; exact mem_takeWhile_p _ _ _ hc
   · rcases dropWhile_head isC ((pre.reverse).dropWhile isP1) with h | ⟨h, t, e, hp⟩
     · left; simp [h]
     · right; exact ⟨t.reverse, h, by simp [e], hp⟩
   · exact dropWhile_head isC _
+
+theorem chain_nil (q : Option Cls) : chain q [] = (q != some .comma) := rfl
+
+theorem chain_cons_nonC (q : Option Cls) (c : Char) (cs : Str) (hc : isC c = false) :
+    chain q (c :: cs) = (ok q (clsOf c) && chain (some (clsOf c)) cs) := by
+  have h := (notC_cls c hc).1
+  unfold chain
+  rw [run, if_neg h]
+  by_cases ho : ok q (clsOf c) = true <;> simp [ho]
+
+theorem chain_swap (q q' : Option Cls) (W : Str)
+    (hW : W = [] ∨ ∃ c cs, W = c :: cs ∧ isC c = false)
+    (h : chain q W = true) (hq' : q' ≠ some .comma)
+    (hok : ∀ c cs, W = c :: cs → isC c = false → ok q (clsOf c) = true → ok q' (clsOf c) = true) :
+    chain q' W = true := by
+  rcases hW with rfl | ⟨c, cs, rfl, hc⟩
+  · simpa [chain_nil] using hq'
+  · rw [chain_cons_nonC _ _ _ hc] at h ⊢
+    simp only [Bool.and_eq_true] at h ⊢
+    exact ⟨hok c cs rfl hc h.1, h.2⟩
+
+theorem isP2_noCls_ws (xs : Str) (hx : ∀ c ∈ xs, isP2 c = true) (hn : ')' ∉ xs) :
+    ∀ c ∈ xs, clsOf c = .ws := by
+  intro c hc
+  rcases isP2_cls c (hx c hc) with h | h
+  · exact h
+  · subst h; exact absurd hc hn
+
+/-- The heart of `na_wellformed`: with the match groups as the regex finds them, dropping the reference
+as `_remover` prescribes keeps every adjacent pair of non-blank characters allowed. -/
+theorem remove_core (U c1 p1 ref p2 c2 W : Str)
+    (hc1 : ∀ c ∈ c1, isC c = true) (hp1 : ∀ c ∈ p1, isP1 c = true)
+    (hp2 : ∀ c ∈ p2, isP2 c = true) (hc2 : ∀ c ∈ c2, isC c = true)
+    (href : ∀ c ∈ ref, clsOf c = .other) (hrne : ref ≠ [])
+    (hU : U = [] ∨ ∃ us c, U = us ++ [c] ∧ isC c = false)
+    (hW : W = [] ∨ ∃ c cs, W = c :: cs ∧ isC c = false)
+    (hwl : lastNonWs (U ++ (c1 ++ p1)) = none ∨ lastNonWs (U ++ (c1 ++ p1)) = some ',' ∨
+           lastNonWs (U ++ (c1 ++ p1)) = some '(')
+    (hwr : firstNonWs (p2 ++ (c2 ++ W)) = none ∨ firstNonWs (p2 ++ (c2 ++ W)) = some ',' ∨
+           firstNonWs (p2 ++ (c2 ++ W)) = some ')')
+    (hwf : chain none (U ++ (c1 ++ (p1 ++ (ref ++ (p2 ++ (c2 ++ W)))))) = true) :
+    chain none (U ++ (removerOut true ⟨U, c1, p1, p2, c2, W⟩ ++ W)) = true := by
+  obtain ⟨q0, h0, t0⟩ := chain_append_true hwf
+  obtain ⟨q1, h1, t1⟩ := chain_append_true t0
+  obtain ⟨q2, h2, t2⟩ := chain_append_true t1
+  obtain ⟨q3, h3, t3⟩ := chain_append_true t2
+  obtain ⟨q4, h4, t4⟩ := chain_append_true t3
+  obtain ⟨q5, h5, h⟩ := chain_append_true t4
+  clear t0 t1 t2 t3 t4
+  have f1 := run_isC c1 hc1 q0 q1 h1
+  have f2 := run_isP1 p1 hp1 q1 q2 h2
+  obtain ⟨e3, -⟩ := run_other ref href hrne q2 q3 h3
+  subst e3
+  have f4 := run_isP2 p2 hp2 _ q4 h4
+  have f5 := run_isC c2 hc2 q4 q5 h5
+  have fU : q0 = none ∨ ∃ x, q0 = some x ∧ x ≠ .ws ∧ x ≠ .comma := by
+    rcases hU with rfl | ⟨us, c, rfl, hc⟩
+    · left; simpa [run] using h0.symm
+    · right; exact ⟨clsOf c, run_snoc_state us c none q0 h0 (notC_cls c hc).1, notC_cls c hc⟩
+  have hq0 : q0 ≠ some .comma := by
+    rcases fU with e | ⟨x, e, _, hx⟩
+    · simp [e]
+    · rw [e]; intro h'; exact hx (Option.some.inj h')
+  have fl : q2 = none ∨ q2 = some .comma ∨ q2 = some .opn := by
+    have hr : run none (U ++ (c1 ++ p1)) = some q2 := by
+      rw [run_append, h0, Option.bind_some, run_append, h1, Option.bind_some, h2]
+    have := run_lastNonWs _ _ _ hr
+    rcases hwl with e | e | e <;> rw [e] at this <;> simp [this, clsOf_comma, clsOf_opn]
+  apply chain_append_intro h0
+  simp only [removerOut]
+  by_cases hab : p1.count '(' > p2.count ')'
+  · -- more opening parentheses: keep c1 and the surplus
+    simp only [hab, if_true, List.append_assoc]
+    have ha : '(' ∈ p1 := List.count_pos_iff.mp (by omega)
+    have ho : ok q1 .opn = true := by
+      rcases f2 with ⟨_, hn⟩ | ⟨_, _, ho⟩
+      · exact absurd ha hn
+      · exact ho
+    apply chain_append_intro h1
+    apply chain_append_intro (run_replicate_opn _ q1 (by omega) ho)
+    refine chain_swap q5 (some .opn) W hW h (by simp) ?_
+    intro c cs _ hc _
+    have := notC_cls c hc
+    generalize clsOf c = x at *
+    cases x <;> simp_all [ok]
+  · by_cases hba : p2.count ')' > p1.count '('
+    · -- more closing parentheses: keep the surplus and c2
+      simp only [hab, hba, if_true, if_false, List.append_assoc]
+      have hb : ')' ∈ p2 := List.count_pos_iff.mp (by omega)
+      have e4 : q4 = some .cls := by
+        rcases f4 with ⟨_, hn⟩ | ⟨e, _, _⟩
+        · exact absurd hb hn
+        · exact e
+      subst e4
+      apply chain_append_intro (run_replicate_cls _ q0 (by omega) hq0)
+      exact chain_append_intro h5 h
+    · simp only [hab, hba, if_false, if_true]
+      by_cases hcm : ',' ∈ c1
+      · -- a comma before the reference: it goes, c2 stays
+        simp only [List.contains_iff_mem, hcm, if_true]
+        have hq0' : q0 = some .cls ∨ q0 = some .other := by
+          rcases f1 with ⟨_, hn⟩ | ⟨_, _, e⟩
+          · exact absurd hcm hn
+          · exact e
+        by_cases hc2m : ',' ∈ c2
+        · have e5 : q5 = some .comma := by
+            rcases f5 with ⟨_, hn⟩ | ⟨e, _, _⟩
+            · exact absurd hc2m hn
+            · exact e
+          subst e5
+          exact chain_append_intro (run_isC_transfer c2 hc2 q4 _ h5 hc2m q0 hq0') h
+        · have e5 : q5 = q4 := by
+            rcases f5 with ⟨e, _⟩ | ⟨_, hm, _⟩
+            · exact e
+            · exact absurd hm hc2m
+          subst e5
+          apply chain_append_intro (run_ws c2 q0 (isC_noComma_ws c2 hc2 hc2m))
+          rcases hW with rfl | ⟨c, cs, rfl, hc⟩
+          · simpa [chain_nil] using hq0
+          · rw [chain_cons_nonC _ _ _ hc] at h ⊢
+            simp only [Bool.and_eq_true] at h ⊢
+            refine ⟨?_, h.2⟩
+            have hcls : clsOf c = .cls := by
+              by_cases hb : ')' ∈ p2
+              · have e4 : q5 = some .cls := by
+                  rcases f4 with ⟨_, hn⟩ | ⟨e, _, _⟩
+                  · exact absurd hb hn
+                  · exact e
+                have h1' := h.1
+                rw [e4] at h1'
+                have := notC_cls c hc
+                generalize clsOf c = x at *
+                cases x <;> simp_all [ok]
+              · have hs : isSpace c = false := by
+                  simp only [isC, Bool.or_eq_false_iff] at hc; exact hc.1
+                have hf : firstNonWs (p2 ++ (c2 ++ c :: cs)) = some c := by
+                  rw [firstNonWs_ws_append _ _ (isP2_noCls_ws p2 hp2 hb),
+                    firstNonWs_ws_append _ _ (isC_noComma_ws c2 hc2 hc2m)]
+                  simp [firstNonWs, hs]
+                rw [hf] at hwr
+                rcases hwr with e | e | e
+                · cases e
+                · have : c = ',' := Option.some.inj e
+                  subst this; simp [isC] at hc
+                · have : c = ')' := Option.some.inj e
+                  subst this; exact clsOf_cls
+            rw [hcls]
+            rcases hq0' with e | e <;> subst e <;> rfl
+      · -- no comma before the reference: the blanks stay, c2 goes
+        have hcm' : c1.contains ',' = false := by
+          simpa [List.contains_iff_mem] using hcm
+        simp only [hcm', if_false, Bool.false_eq_true]
+        apply chain_append_intro (run_ws c1 q0 (isC_noComma_ws c1 hc1 hcm))
+        have e1 : q1 = q0 := by
+          rcases f1 with ⟨e, _⟩ | ⟨_, hm, _⟩
+          · exact e
+          · exact absurd hm hcm
+        subst e1
+        have hq : q1 = none ∨ q1 = some .opn := by
+          have h3' : q1 = none ∨ q1 = some .comma ∨ q1 = some .opn := by
+            rcases f2 with ⟨e, _⟩ | ⟨_, _, ho⟩
+            · rw [← e]; exact fl
+            · rcases q1 with _ | (_|_|_|_|_) <;> simp_all [ok]
+          rcases fU with e | ⟨x, e, hx1, hx2⟩
+          · exact Or.inl e
+          · subst e
+            rcases h3' with e | e | e
+            · cases e
+            · exact absurd (Option.some.inj e) hx2
+            · exact Or.inr e
+        refine chain_swap q5 q1 W hW h hq0 ?_
+        intro c cs _ hc _
+        have := notC_cls c hc
+        generalize clsOf c = x at *
+        rcases hq with e | e <;> subst e <;> cases x <;> simp_all [ok]
+
+/-! ### joining the items of a row -/
+
+/-- an item that can stand between commas: its first non-blank character opens a group or a tag, and
+scanned on its own it is accepted and ends in `)` or a tag character -/
+def itemOk (x : Str) : Prop :=
+  (∃ c, firstNonWs x = some c ∧ (clsOf c = .opn ∨ clsOf c = .other)) ∧
+  (run none x = some (some .cls) ∨ run none x = some (some .other))
+
+theorem run_start : ∀ (x : Str) (c : Char), firstNonWs x = some c →
+    (clsOf c = .opn ∨ clsOf c = .other) → run (some .comma) x = run none x
+  | [], _, h, _ => by simp [firstNonWs] at h
+  | d :: ds, c, h, hc => by
+    rw [firstNonWs] at h
+    by_cases hs : isSpace d = true
+    · rw [if_pos hs] at h
+      rw [run, run, if_pos ((clsOf_ws_iff d).mpr hs), if_pos ((clsOf_ws_iff d).mpr hs)]
+      exact run_start ds c h hc
+    · rw [if_neg hs] at h
+      have : d = c := Option.some.inj h
+      subst this
+      have hw : clsOf d ≠ .ws := fun e => hs ((clsOf_ws_iff d).mp e)
+      rw [run, run, if_neg hw, if_neg hw]
+      rcases hc with e | e <;> rw [e] <;> rfl
+
+theorem run_sep (k : Option Cls) (hk : k = some .cls ∨ k = some .other) :
+    run k SEP = some (some .comma) := by
+  rcases hk with e | e <;> subst e <;> decide
+
+theorem join_run : ∀ (l : List Str), l ≠ [] → (∀ x ∈ l, itemOk x) → ∀ q, (q = none ∨ q = some .comma) →
+    (run q (SEP.intercalate l) = some (some .cls) ∨ run q (SEP.intercalate l) = some (some .other))
+  | [], h, _, _, _ => absurd rfl h
+  | [x], _, hx, q, hq => by
+    obtain ⟨⟨c, hf, hc⟩, hr⟩ := hx x (by simp)
+    have e : run q x = run none x := by
+      rcases hq with e | e <;> subst e
+      · rfl
+      · exact run_start x c hf hc
+    simpa [List.intercalate, e] using hr
+  | x :: y :: ys, _, hx, q, hq => by
+    obtain ⟨⟨c, hf, hc⟩, hr⟩ := hx x (by simp)
+    have e : run q x = run none x := by
+      rcases hq with e | e <;> subst e
+      · rfl
+      · exact run_start x c hf hc
+    have ih := join_run (y :: ys) (by simp) (fun z hz => hx z (by simp [hz])) (some .comma) (Or.inr rfl)
+    have hi : SEP.intercalate (x :: y :: ys) = x ++ (SEP ++ SEP.intercalate (y :: ys)) := by
+      simp [List.intercalate]
+    rw [hi, run_append, e]
+    rcases hr with h | h <;> rw [h, Option.bind_some, run_append, run_sep _ (by simp), Option.bind_some] <;>
+      exact ih
 
 end HedVerif.Assemble
 
@@ -670,5 +901,126 @@ theorem deterministic_pure (x : Input) (n : Nat) :
     rcases List.mem_cons.mp ha with rfl | ha
     · rfl
     · exact h3 a ha
+
+
+/-- The delimiter checker (its loop with `current_tag` and `last_non_empty_valid_character`) accepts a
+string exactly when every non-blank character may follow the previous non-blank one (`ok`: no comma at
+the start, after a comma or after `(`; `(` only at the start, after a comma or `(`; no `)` after a comma;
+no tag character after `)`) and the string does not end with a comma. -/
+theorem delimOk_iff_chain (s : Str) : delimOk s = chain none s := delimOk_eq_chain s
+
+instance (pre post : Str) : Decidable (wholeTag pre post) := by unfold wholeTag; infer_instance
+
+/-- **n/a clean-up keeps the string delimiter-well-formed** (code with `fixes/C06_replace_ref.diff`).
+Let `{name}` occur once in `t` (`pre`, `post` = the text before and after it), as a whole tag, and let
+`t` pass the delimiter checker.  When the referenced cell is `n/a` *or empty* (a categorical column
+with an `n/a`/unknown key gives the empty string), `replace_ref` returns the text before the match,
+the remover's output and the text after the match, and that string passes the delimiter checker —
+whatever the blanks, commas and parentheses around the reference, and whatever the reference name
+(digits-only names included).  `_partial`: a reference occurring twice is not covered, see
+`na_wellformed_counterexample`. -/
+theorem na_wellformed_partial (t name v pre post : Str)
+    (hv : v = [] ∨ v = NA) (hname : ∀ c ∈ name, clsOf c = .other)
+    (hs : splitFirst (mkRef name) t = some (pre, post))
+    (hone : splitFirst (mkRef name) post = none)
+    (hwf : delimOk t = true) (hwhole : wholeTag pre post) :
+    replaceRef t name v =
+      (groups pre post).u ++ (removerOut true (groups pre post) ++ (groups pre post).w) ∧
+    delimOk (replaceRef t name v) = true := by
+  have hne := mkRef_ne name
+  have hf : ∀ a b : Str, (removeF true a b).2.length ≤ b.length := by
+    intro a b
+    show ((b.dropWhile isP2).dropWhile isC).length ≤ b.length
+    exact Nat.le_trans (List.dropWhile_sublist _).length_le (List.dropWhile_sublist _).length_le
+  have hw0 : splitFirst (mkRef name) (groups pre post).w = none :=
+    splitFirst_dropWhile _ _ _ (splitFirst_dropWhile _ _ _ hone)
+  have hrep : replaceRef t name v =
+      (groups pre post).u ++ (removerOut true (groups pre post) ++ (groups pre post).w) := by
+    unfold replaceRef
+    rw [if_pos hv, sub_step _ _ hne hf t pre post hs]
+    show ((groups pre post).u ++ removerOut true (groups pre post)) ++ subF _ _ _ (groups pre post).w = _
+    rw [subF_none _ _ _ _ hw0, List.append_assoc]
+  refine ⟨hrep, ?_⟩
+  rw [hrep, delimOk_eq_chain]
+  have ht := splitFirst_eq _ _ _ _ hs
+  obtain ⟨e1, e2, hc1, hp1, hp2, hc2, hU, hW⟩ := groups_spec pre post
+  generalize groups pre post = g at *
+  have href : ∀ c ∈ mkRef name, clsOf c = .other := by
+    intro c hc
+    simp only [mkRef, List.mem_cons, List.mem_append, List.not_mem_nil, or_false] at hc
+    rcases hc with rfl | h | rfl
+    · decide
+    · exact hname c h
+    · decide
+  rw [delimOk_eq_chain, ht, e1, e2] at hwf
+  simp only [List.append_assoc] at hwf
+  have hwl := hwhole.1
+  have hwr := hwhole.2
+  rw [e1] at hwl
+  rw [e2] at hwr
+  exact remove_core g.u g.c1 g.p1 (mkRef name) g.p2 g.c2 g.w hc1 hp1 hp2 hc2 href hne hU hW hwl hwr hwf
+
+/-- the hypotheses of `na_wellformed_partial` are satisfiable: `(Red, ({c})), Blue` with `c` absent
+becomes `(Red), Blue` -/
+example : replaceRef "(Red, ({c})), Blue".toList ['c'] [] = "(Red), Blue".toList := by decide +kernel
+
+example : ∃ pre post, splitFirst (mkRef ['c']) "(Red, ({c})), Blue".toList = some (pre, post) ∧
+    splitFirst (mkRef ['c']) post = none ∧ delimOk "(Red, ({c})), Blue".toList = true ∧ wholeTag pre post :=
+  ⟨"(Red, (".toList, ")), Blue".toList, by decide +kernel⟩
+
+/-- Not covered by the fix: the **same** reference twice with only delimiters between the two
+occurrences.  `re.sub` does not rescan: the first match consumes the comma the second one would have
+to drop.  `R,{c},{c}` is well-formed, both references are whole tags, and the result is `R,`. -/
+theorem na_wellformed_counterexample :
+    delimOk "R,{c},{c}".toList = true ∧ replaceRef "R,{c},{c}".toList ['c'] NA = "R,".toList ∧
+    delimOk "R,".toList = false := by decide +kernel
+
+/-- Unchanged code, defect 1 (design probe #4): an empty replacement (categorical cell `n/a` or an
+unknown key) is spliced as text, so `{c}, Square` becomes `, Square`, which the delimiter checker
+rejects; the fixed code gives `Square`. -/
+theorem old_empty_value_counterexample :
+    replaceRefOld "{c}, Square".toList ['c'] [] = ", Square".toList ∧
+    delimOk ", Square".toList = false ∧
+    replaceRef "{c}, Square".toList ['c'] [] = "Square".toList := by decide +kernel
+
+/-- Unchanged code, defect 2: `c1` made of blanks only counts as "a comma before the reference", so a
+blank in front of a leading reference makes the remover keep the comma after it. -/
+theorem old_leading_blank_counterexample :
+    delimOk " {c},R".toList = true ∧ wholeTag [' '] ",R".toList ∧
+    replaceRefOld " {c},R".toList ['c'] NA = ",R".toList ∧ delimOk ",R".toList = false ∧
+    replaceRef " {c},R".toList ['c'] NA = " R".toList := by decide +kernel
+
+/-- Unchanged code, defect 3 (design probe #19): the reference is spliced into the pattern unescaped,
+so `{1}` is a quantifier: the reference is never matched, every separator is, and `{0}` makes the group
+`p1` not participate (`AttributeError`).  The fixed code treats the name as text. -/
+theorem old_numeric_name_counterexample :
+    replaceRefOldNumeric "Red, {1}, Blue".toList 1 = some "Red{1}Blue".toList ∧
+    replaceRefOldNumeric "{0}".toList 0 = none ∧
+    replaceRef "Red, {1}, Blue".toList ['1'] NA = "Red, Blue".toList := by decide +kernel
+
+/-- Unchanged code, defect 4: a value column's empty cell is not skipped: `Label/#` gives `Label/`,
+which is kept in the row; the fixed handler returns `n/a`, which `combine_dataframe` skips. -/
+theorem old_value_empty_cell_counterexample :
+    valueHandlerOld "Label/#".toList [] = "Label/".toList ∧ keep "Label/".toList = true ∧
+    applyTr (.value "Label/#".toList) [] = NA ∧ keep NA = false := by decide +kernel
+
+
+/-- The `", "`-join of a row is delimiter-well-formed as soon as every kept item (non-empty, not `n/a`)
+can stand between commas (`itemOk`: accepted by the checker, begins with `(` or a tag character and ends
+with `)` or a tag character).  Together with `na_wellformed_partial` (an item whose reference vanished
+is again accepted) this is the row-level reading of "the result is always delimiter-well-formed". -/
+theorem join_wellformed (items : List Str) (h : ∀ x ∈ items, keep x = true → itemOk x) :
+    delimOk (joinRow items) = true := by
+  rw [delimOk_eq_chain]
+  unfold joinRow chain
+  by_cases hl : items.filter keep = []
+  · rw [hl]; rfl
+  · have := join_run (items.filter keep) hl
+      (fun x hx => h x (List.mem_filter.mp hx).1 (List.mem_filter.mp hx).2) none (Or.inl rfl)
+    rcases this with e | e <;> rw [e] <;> rfl
+
+example : itemOk "(Red, Blue)".toList ∧ itemOk "Label/3".toList ∧ ¬ itemOk "(".toList :=
+  ⟨⟨⟨'(', by decide +kernel⟩, by decide +kernel⟩, ⟨⟨'L', by decide +kernel⟩, by decide +kernel⟩,
+   fun h => by rcases h.2 with e | e <;> revert e <;> decide +kernel⟩
 
 end HedVerif.C06
